@@ -911,3 +911,52 @@ def h_ctypes(ch):
     g = oh.make_graph(nodes, "g_ctypes", [vi("x", TP.FLOAT, [2])],
                       [vi("y", yt, list(arr.shape)), vi("z", TP.FLOAT, [2])] + outs, initializer=inits)
     return model(g, opset=21, ir=10)
+
+
+# ---------------------------------------------------------------------------------------------------------
+# loop bodies in which the next value of a carried variable is computed (by a non-Identity node) BEFORE another node
+# reads the old value: SSA keeps both alive, Python code that re-uses one variable for both does not
+# ---------------------------------------------------------------------------------------------------------
+def _rotate_body(prefix, order, counter):
+    q2 = oh.make_node("Mul", [prefix + "q", "two"], [prefix + "q2"])          # next q
+    p2 = oh.make_node("Sub", [prefix + "q", prefix + "p"], [prefix + "p2"])   # next p reads the OLD q
+    r2 = oh.make_node("Add", [prefix + "p", prefix + "q"], [prefix + "r2"])   # third value reads both old ones
+    nodes = {"q-first": [q2, p2, r2], "p-first": [p2, q2, r2], "r-first": [r2, q2, p2]}[order]
+    ins = [vi(prefix + "i", TP.INT64, []), vi(prefix + "cin", TP.BOOL, []), vi(prefix + "p", TP.FLOAT, [2]),
+           vi(prefix + "q", TP.FLOAT, [2]), vi(prefix + "r", TP.FLOAT, [2])]
+    outs = [vi(prefix + "cout", TP.BOOL, []), vi(prefix + "p2", TP.FLOAT, [2]), vi(prefix + "q2", TP.FLOAT, [2]),
+            vi(prefix + "r2", TP.FLOAT, [2])]
+    if counter:
+        ins.append(vi(prefix + "c", TP.INT64, []))
+        nodes = nodes + [oh.make_node("Add", [prefix + "c", "one"], [prefix + "c2"]),
+                         oh.make_node("Less", [prefix + "c2", "n"], [prefix + "cout"])]
+        outs.append(vi(prefix + "c2", TP.INT64, []))
+    else:
+        nodes = [oh.make_node("Identity", [prefix + "cin"], [prefix + "cout"])] + nodes
+    return oh.make_graph(nodes, prefix + "body", ins, outs)
+
+
+_ROT_FEEDS = [dict(x=f32(1, -2), z=f32(0.5, 3), n=i64(k)) for k in (3, 0, 1, 2)]
+
+
+def _mk_rotate(name, order, counter):
+    @_h(name, {}, _ROT_FEEDS, tags=("loop", "rotate") + (("while",) if counter else ("for",)))
+    def build(ch, order=order, counter=counter):
+        body = _rotate_body("k_", order, counter)
+        nodes = [const_node("two", np.array(2.0, F)), const_node("one", np.array(1, I)), const_node("zero", np.array(0, I)),
+                 oh.make_node("Greater", ["n", "zero"], ["c0"]), oh.make_node("Neg", ["x"], ["w"])]
+        if counter:
+            nodes.append(oh.make_node("Loop", ["", "c0", "x", "z", "w", "zero"], ["p0", "q0", "r0", "cnt"], body=body))
+        else:
+            nodes.append(oh.make_node("Loop", ["n", "", "x", "z", "w"], ["p0", "q0", "r0"], body=body))
+        nodes += [oh.make_node("Identity", ["p0"], ["yp"]), oh.make_node("Identity", ["q0"], ["yq"]),
+                  oh.make_node("Identity", ["r0"], ["yr"])]
+        g = oh.make_graph(nodes, "g_" + name[2:], [vi("x", TP.FLOAT, [2]), vi("z", TP.FLOAT, [2]), vi("n", TP.INT64, [])],
+                          [vi("yp", TP.FLOAT, [2]), vi("yq", TP.FLOAT, [2]), vi("yr", TP.FLOAT, [2])])
+        return model(g)
+    return build
+
+
+for _o in ("q-first", "p-first", "r-first"):
+    _mk_rotate("h_while_rot_" + _o[0], _o, True)
+    _mk_rotate("h_for_rot_" + _o[0], _o, False)
